@@ -606,3 +606,112 @@ func C01FieldOracle(flavor string, tc *C01FieldCase, fields [][2]string) (bool, 
 	}
 	return true, ""
 }
+
+// ---------------------------------------------------------------- multi-line header fields (round 6)
+
+// C01CookieCrumbPool: cookie-pairs a caller writes into Cookie field lines.
+var C01CookieCrumbPool = []string{"sid=s1", "theme=dark", "lang=en", "csrf=t0k", "a=1", "b=2", "c=3", "k=v=w", "flag", "q=\"x y\"", "n=", "ü=1", "long=" + strings.Repeat("c", 60)}
+
+// C01GenCookieLine draws ONE Cookie field line of 1..3 cookie-pairs, separated the ways callers
+// write them ("; ", ";", ";  ", sometimes with a trailing separator).
+func C01GenCookieLine(r *rand.Rand) string {
+	var b strings.Builder
+	for i, n := 0, 1+r.Intn(3); i < n; i++ {
+		if i > 0 {
+			b.WriteString(Pick(r, []string{"; ", "; ", ";", ";  "}))
+		}
+		b.WriteString(Pick(r, C01CookieCrumbPool))
+	}
+	if r.Intn(8) == 0 {
+		b.WriteString(Pick(r, []string{";", "; "}))
+	}
+	return b.String()
+}
+
+// C01GenLines draws the values of ONE header key given as SEVERAL field lines (2..4): Cookie lines
+// for a cookie name, values from the pool otherwise (repeated values allowed: a multiset).
+func C01GenLines(r *rand.Rand, name string, pool []string) []string {
+	n := 2 + r.Intn(3)
+	vs := make([]string, 0, n)
+	for i := 0; i < n; i++ {
+		if strings.EqualFold(name, "cookie") {
+			vs = append(vs, C01GenCookieLine(r))
+		} else {
+			vs = append(vs, Pick(r, pool))
+		}
+	}
+	return vs
+}
+
+// C01Crumbs splits Cookie field lines into their cookie-pairs (RFC 6265 §4.2.1 / RFC 9113
+// §8.2.3: the lines of a request are one cookie-string, pairs separated by ";" and optional
+// spaces); empty pairs are dropped. Written independently of the encoders.
+func C01Crumbs(lines []string) []string {
+	var out []string
+	for _, l := range lines {
+		for _, p := range strings.Split(l, ";") {
+			p = strings.Trim(p, " \t")
+			if p != "" {
+				out = append(out, p)
+			}
+		}
+	}
+	return out
+}
+
+var c01LinesSkip = map[string]bool{"host": true, "content-length": true, "connection": true, "proxy-connection": true, "transfer-encoding": true,
+	"upgrade": true, "keep-alive": true, "user-agent": true, "accept-encoding": true, "te": true, "trailer": true}
+
+// C01LinesOracle: "every field line arrives". For every caller header key that the writers do not
+// treat themselves, the MULTISET of its values (all keys that lower-case to the same name together;
+// surrounding white space removed, as HTTP defines a field value) must equal the multiset of the
+// values the peer decoded under that name — judged per value; for Cookie the multisets of
+// cookie-pairs over ALL lines are compared (HTTP/2 may crumble, HTTP/1.1 and HTTP/3 need not).
+func C01LinesOracle(hdr http.Header, fields [][2]string) (bool, string) {
+	want, got := map[string][]string{}, map[string][]string{}
+	for k, vs := range hdr {
+		lk := strings.ToLower(k)
+		if strings.HasPrefix(k, "__") || c01LinesSkip[lk] {
+			continue
+		}
+		for _, v := range vs {
+			want[lk] = append(want[lk], strings.Trim(v, " \t"))
+		}
+	}
+	for _, f := range fields {
+		lk := strings.ToLower(f[0])
+		if strings.HasPrefix(lk, ":") || c01LinesSkip[lk] {
+			continue
+		}
+		got[lk] = append(got[lk], strings.Trim(f[1], " \t"))
+	}
+	for _, m := range []map[string][]string{want, got} {
+		if c, ok := m["cookie"]; ok {
+			m["cookie"] = C01Crumbs(c)
+			if len(m["cookie"]) == 0 {
+				delete(m, "cookie")
+			}
+		}
+	}
+	names := map[string]bool{}
+	for n := range want {
+		names[n] = true
+	}
+	for n := range got {
+		names[n] = true
+	}
+	var bad []string
+	for n := range names {
+		w, g := append([]string(nil), want[n]...), append([]string(nil), got[n]...)
+		sort.Strings(w)
+		sort.Strings(g)
+		if strings.Join(w, "\x00") != strings.Join(g, "\x00") {
+			bad = append(bad, fmt.Sprintf("%s: described %q, arrived %q", n, w, g))
+		}
+	}
+	if len(bad) > 0 {
+		sort.Strings(bad)
+		return false, strings.Join(bad, "; ")
+	}
+	return true, ""
+}
